@@ -100,6 +100,7 @@ class _A(object):
         self.a = ctx.arr('a', n, -10.0, 10.0)
         self.b = ctx.arr('b', n, -10.0, 10.0)
         self.periods = np.array([0.0, 0.35, 1.0])
+        self.c = np.array([0.0, 1.0, 2.0, 3.0, 3.5, 4.0, 4.5, 1.0, -2.5, -6.0, -5.0, -4.0])
         self._asig = None
 
     @property
@@ -128,6 +129,16 @@ def _pure_table():
     T['peaks_only_delta'] = lambda A: (_try(lambda: A.lib.fns.peaks_and_crossings.determine_peaks_only_delta_series(A.a)), [A.a])
     T['pseudo_cyclic'] = lambda A: (_try(lambda: A.lib.fns.peaks_and_crossings.determine_pseudo_cyclic_peak_only_series(A.a)), [A.a])
     T['get_n_cyc_array'] = lambda A: (A.lib.fns.peaks_and_crossings.get_n_cyc_array(A.a), [A.a])
+    T['get_n_cyc_array_switched'] = lambda A: (A.lib.fns.peaks_and_crossings.get_n_cyc_array(A.a, opt='switched', start='peak'), [A.a])
+    T['get_peak_array_indices_max'] = lambda A: (A.lib.fns.peaks_and_crossings.get_peak_array_indices(A.a, ptype='max'), [A.a])
+    # (this helper raises IndexError for some short series on the tree as given - observed, outside every statement; the
+    # exception is treated as its result here: C05 asks for unchanged inputs and repeatability)
+    T['get_zero_and_peak_array_indices'] = lambda A: (_try(lambda: A.lib.fns.peaks_and_crossings.get_zero_and_peak_array_indices(A.a)), [A.a])
+    # concrete inputs for the slope-change helper (its np.isclose test is on concrete data here): the in-place question
+    # does not depend on the values
+    T['get_major_change_indices'] = lambda A: (A.lib.fns.peaks_and_crossings.get_major_change_indices(A.c, dx=0.5), [A.c])
+    T['get_major_change_indices_already_diff'] = lambda A: (A.lib.fns.peaks_and_crossings.get_major_change_indices(
+        A.c, already_diff=True, dx=4.0, rtol=1e-6, atol=0.5), [A.c])
     T['clean_out_non_changing'] = lambda A: (A.lib.fns.peaks_and_crossings.clean_out_non_changing(A.a), [A.a])
     T['n_cyc_power_law'] = lambda A: (A.lib.im.calc_n_cyc_array_w_power_law(A.a, 1.0, 1.0, cut_off=0.01), [A.a])
     T['cyc_amp_power_law'] = lambda A: (A.lib.im.calc_cyc_amp_array_w_power_law(A.a, 2.0, 1.0), [A.a])
@@ -178,10 +189,11 @@ def pure(ctx, fname, n=4):
     f = _pure_table()[fname]
     snaps = None
     # arguments are identified on a dry evaluation of the argument list (asig creation copies, so snapshot its values too)
-    pre_a, pre_b, pre_p = _snap(A.a), _snap(A.b), _snap(A.periods)
+    pre_a, pre_b, pre_p, pre_c = _snap(A.a), _snap(A.b), _snap(A.periods), _snap(A.c)
     res, args = f(A)
     before_obj = None
-    ctx.claim('input_arrays_unchanged', S.sym_and(_same(ctx, pre_a, A.a), _same(ctx, pre_b, A.b), _same(ctx, pre_p, A.periods)), fname)
+    ctx.claim('input_arrays_unchanged', S.sym_and(_same(ctx, pre_a, A.a), _same(ctx, pre_b, A.b), _same(ctx, pre_p, A.periods),
+                                                  _same(ctx, pre_c, A.c)), fname)
     if A._asig is not None:
         ctx.claim('signal_values_unchanged', _same(ctx, pre_a, A.asig.values), fname)
     r1 = _flat(res)
